@@ -1,5 +1,6 @@
 import RactorModel.Lemmas.OutPortV1
 import RactorModel.Lemmas.OutPortV2
+import RactorModel.Lemmas.OutPortV2Acct
 import RactorModel.Extracted
 
 /-!
@@ -73,6 +74,37 @@ subscription untouched — also when that step removes a dead subscriber. -/
 theorem v2_frame (st : V2 M O) (c : Call M) (h : st.task.2 = some c) :
     ∀ x ∈ st.all, x.key ≠ c.key → x ∈ st.task.1.all :=
   task_frame st c h
+
+/-- (no subscription lost, none invented) With the public configuration the subscription
+records held anywhere in the machine — registered, removed, or still waiting in the
+channel — are, up to order, exactly the `subscribe` calls made, each with its subscriber
+and converter, exactly once; their keys are distinct and number the calls 0, 1, 2, …. -/
+theorem v2_not_lost (ops : List (Op2 M O)) :
+    let st := (V2.init M O true).run ops
+    (idents st.all).Perm (idents (cmdSubs st.hist)) ∧ (st.all.map (·.key)).Nodup ∧
+      (cmdSubs st.hist).map (·.key) = List.range st.nsub := by
+  intro st
+  have h : AInv st := ainv_init.run rfl ops
+  exact ⟨h.perm, h.keys_nodup, h.keys⟩
+
+/-- (dropped for good) A subscription that has been removed is never served again: no later
+port-task step calls its converter, and its record stays in `gone` unchanged. -/
+theorem v2_dead_dropped (ops : List (Op2 M O)) (c : Call M) :
+    let st := (V2.init M O true).run ops
+    (st.task.2 = some c → ∀ g ∈ st.gone, g.key ≠ c.key) ∧
+      ∀ op, ∀ g ∈ st.gone, g ∈ (st.step op).gone := by
+  intro st
+  exact ⟨served_not_gone (ainv_init.run rfl ops) c, gone_mono_step st⟩
+
+/-- (no blocking) Inside a batch every port-task step either finishes the batch or strictly
+decreases the lexicographic measure (entries left in the batch, subscribers left in the
+segment, messages left for the current subscriber) — whatever the state of the subscribers:
+a dead subscriber costs one step and cannot stall the delivery to the others. -/
+theorem v2_batch_progress (st : V2 M O) (srv todo : List (Sub M O)) (seg left : List M)
+    (rest : List (Cmd M O)) (hpc : st.pc = .disp srv todo seg left rest) :
+    (∃ subs, st.task.1.pc = .top subs) ∨
+      Prod.Lex (· < ·) (Prod.Lex (· < ·) (· < ·)) st.task.1.pc.measure st.pc.measure :=
+  batch_progress st srv todo seg left rest hpc
 
 /-- (`send` never blocks) Publishing is an unconditional enqueue: whatever the state of the
 port task and of the subscribers, it only appends to the channel. -/
@@ -172,6 +204,12 @@ theorem v1_frame (st : V1 M O) (i : Nat) :
       ∀ j, j ≠ i → (st.task i).1.fwds[j]? = st.fwds[j]? :=
   task1_frame st i
 
+/-- (dropped for good) A forwarding task that found its subscriber dead has returned: it
+never calls the converter again and its subscription record never changes. -/
+theorem v1_dead_dropped (cap : Nat) (log : List M) (dead : List Nat) (f : Fwd M O) (h : f.ended = true) :
+    f.step cap log dead = (f, none) := by
+  simp [Fwd.step, h]
+
 /-- (`send` never blocks) Publishing never depends on any subscriber or forwarding task
 beyond the receiver count: it appends to the ring (overwriting the oldest slot) or, with no
 receiver, does nothing. -/
@@ -228,6 +266,10 @@ example : demo1.fwds.map (fun f => (f.got, f.mask, f.cursor)) =
 #print axioms C16.v2_removed_only_dead
 #print axioms C16.v2_hist
 #print axioms C16.v2_frame
+#print axioms C16.v2_not_lost
+#print axioms C16.v2_dead_dropped
+#print axioms C16.v2_batch_progress
+#print axioms C16.v1_dead_dropped
 #print axioms C16.v2_publish_nonblocking
 #print axioms C16.v2_ok
 #print axioms C16.v1_subseq
